@@ -84,10 +84,12 @@ sized:
         case 2: { size_t b = bounds[rng_below(&r, (uint32_t) nb)]; long d = (long) rng_below(&r, 5) - 2; cap = (long) b + d < 0 ? 0 : (size_t) ((long) b + d); break; }
         default: cap = total ? rng_below(&r, (uint32_t) total + 2) : 0; break;
         }
-        uint8_t *buf[2]; char rets[16]; size_t cnt = 0; int err = 0; bool wv = false;
-        for (int k = 0; k < 2; k++) {
-            buf[k] = (uint8_t *) malloc(cap); memset(buf[k], k ? 0x55 : 0xAA, cap);
-            binson_writer w; memset(&w, 0xEE, sizeof w); binson_writer_init(&w, buf[k], cap);
+        uint8_t *buf[3]; char rets[16]; size_t cnt = 0; int err = 0; bool wv = false; size_t scnt[16];
+        /* run k = 2 is the writer's own answer with room for everything (self reference for C04) */
+        for (int k = 0; k < 3; k++) {
+            size_t kcap = k == 2 ? total * 2 + 4096 : cap;
+            buf[k] = (uint8_t *) malloc(kcap); memset(buf[k], k == 1 ? 0x55 : 0xAA, kcap);
+            binson_writer w; memset(&w, 0xEE, sizeof w); binson_writer_init(&w, buf[k], kcap);
             for (int i = 0; i < nc; i++) {
                 rc_t *c = &calls[i]; bool ok = false; uint8_t *pl = NULL;
                 size_t L = PLEN(c);
@@ -106,6 +108,7 @@ sized:
                 else if (!strcmp(c->op, "raw")) ok = binson_write_raw(&w, pl, L);
                 free(pl);
                 if (k == 0) rets[i] = ok ? 1 : 0;
+                if (k == 2) scnt[i] = binson_writer_get_counter(&w);
             }
             if (k == 0) { cnt = binson_writer_get_counter(&w); err = (int) w.error_flags; if (err == 0) wv = binson_writer_verify(&w); }
         }
@@ -122,12 +125,14 @@ sized:
         }
         fprintf(f, "],\"rets\":[");
         for (int i = 0; i < nc; i++) fprintf(f, i ? ",%d" : "%d", rets[i]);
+        fprintf(f, "],\"scnt\":[");
+        for (int i = 0; i < nc; i++) fprintf(f, i ? ",%zu" : "%zu", scnt[i]);
         fprintf(f, "],\"cnt\":%zu,\"err\":%d,\"nstored\":%zu,\"contig\":%d,\"sum\":%lu,\"wv\":%d,\"head\":[", cnt, err, ns, contiguous ? 1 : 0, sum, wv ? 1 : 0);
         for (size_t i = 0; i < ns && i < 64; i++) fprintf(f, i ? ",%u" : "%u", buf[0][i]);
         fprintf(f, "],\"tail\":[");
         for (size_t i = ns > 16 ? ns - 16 : 0, k = 0; i < ns; i++, k++) fprintf(f, k ? ",%u" : "%u", buf[0][i]);
         fprintf(f, "]}\n");
-        free(buf[0]); free(buf[1]);
+        free(buf[0]); free(buf[1]); free(buf[2]);
     }
     if (out) fclose(f);
     fprintf(stderr, "record_writer: %d executions\n", n);
